@@ -140,6 +140,22 @@ def run(prop, tier, seed, args):
             else:
                 undecided.append((ob["ident"], f"solver: {ob['verdict']} {ob['note']}"))
 
+    # ---------------- obligations discharged by a purpose-built checker (frame checker), not by the SMT solver
+    extra = None
+    if hasattr(mod, "extra_obligations") and not args.only:
+        extra = mod.extra_obligations(E)
+        obligations += extra["obligations"]
+        discharged += extra["discharged"]
+        for v in extra["violations"]:
+            fd = fw.match_finding(findings, v["ident"])
+            if fd is not None:
+                continue
+            rep.violation(v["ident"], {"kind": "obligation-only", "obligation": v["ident"], "solver": "frame checker: region is not local / instance / parameter",
+                                       "detail": v["detail"]}, no_input=True)
+        per_ob.append({"name": "frame#site(*) x %d" % extra["obligations"], "verdict": "discharged by vf/pyvc/frame.py" if not extra["violations"] else "some refuted",
+                       "backend": "frame-checker", "ms": 0})
+        rep.extra["frame_checker"] = extra["details"]
+
     # ---------------- vacuity guard: every check() written in a harness must have been reached in some case
     for hname in sorted(reached):
         textual = set(E.harness_checks(hname))
